@@ -81,9 +81,19 @@ def box_tets(nx, ny, nz, rng=None, jitter=0.0, lengths=(1.0, 1.0, 1.0), patches=
         elif patches == 'split':
             fid = side + (6 if upper else 0)
         elif patches == 'random':
+            # distinct ids for different sides (an id never wraps around a box edge: in no-geometry mode refine
+            # cannot know such a corner, which C02's precondition excludes); the two halves of one side get either
+            # two distinct ids or one merged id
             half = 1 if upper else 0
-            if (side, half) not in side_rand:
-                side_rand[(side, half)] = rng.randint(1, 12) if rng else side
+            if not side_rand:
+                perm = list(range(1, 13))
+                if rng:
+                    rng.shuffle(perm)
+                for sd in range(1, 7):
+                    a, b = perm[2 * (sd - 1)], perm[2 * (sd - 1) + 1]
+                    if rng and rng.random() < 0.4:
+                        b = a
+                    side_rand[(sd, 0)], side_rand[(sd, 1)] = a, b
             fid = side_rand[(side, half)]
         else:
             fid = side
